@@ -78,13 +78,13 @@ def expand_tus(patterns):
 
 
 def _one(args):
-    tu, files_re, names_re, release, outdir = args
-    key = hashlib.sha1(("%s|%s|%s|%s|%s" % (tu, files_re, names_re, release, tree_hash())).encode()).hexdigest()
+    tu, files_re, names_re, release, outdir, max_inst = args
+    key = hashlib.sha1(("%s|%s|%s|%s|%s|%s" % (tu, files_re, names_re, release, tree_hash(), max_inst)).encode()).hexdigest()
     out = os.path.join(outdir, key + ".json")
     if os.path.exists(out) and os.path.getsize(out) > 0:
         return tu, out, 0.0, "", True
     tmp = out + ".tmp%d" % os.getpid()
-    cmd = [TOOL, "--files=" + files_re, "--names=" + names_re, "-o", tmp, tu, "--"] + base_flags(release)
+    cmd = [TOOL, "--files=" + files_re, "--names=" + names_re, "--max-inst=%d" % max_inst, "-o", tmp, tu, "--"] + base_flags(release)
     cmd.append("-I" + os.path.dirname(tu))
     t = time.time()
     p = subprocess.run(cmd, stdout=subprocess.PIPE, stderr=subprocess.PIPE, universal_newlines=True)
@@ -120,7 +120,7 @@ def prune_cache(keep_hash):
             f.write(keep_hash)
 
 
-def extract(tu_patterns, files_re, names_re=".", release=True, jobs=None, log=None):
+def extract(tu_patterns, files_re, names_re=".", release=True, jobs=None, log=None, max_inst=0):
     """returns (FactsDB, info dict). Raises AnalysisBroken if a TU fails."""
     if not os.path.exists(TOOL):
         raise AnalysisBroken("extractor %s not built (run MANIFEST.setup_cmd)" % TOOL)
@@ -134,7 +134,7 @@ def extract(tu_patterns, files_re, names_re=".", release=True, jobs=None, log=No
     prune_cache(tree_hash())
     jobs = jobs or min(16, os.cpu_count() or 4)
     t0 = time.time()
-    work = [(tu, files_re, names_re, release, CACHE) for tu in tus]
+    work = [(tu, files_re, names_re, release, CACHE, max_inst) for tu in tus]
     results = []
     with ThreadPoolExecutor(max_workers=jobs) as ex:
         for r in ex.map(_one, work):
